@@ -226,11 +226,15 @@ impl<'a> Client<'a> {
         self.barrier();
         loop {
             let workers = self.sim.take_workers();
-            if workers.is_empty() {
+            let futures = self.sim.take_future_workers();
+            if workers.is_empty() && futures.is_empty() {
                 break;
             }
             for w in workers {
                 let _ = w.join();
+            }
+            for f in futures {
+                let _ = shuttle::future::block_on(f);
             }
         }
         self.barrier()
